@@ -783,9 +783,6 @@ AMBIENT_SITES = {
     ('rccdep.py', 'make_depfile', 'subprocess.check_output:noenv'): 'build-time helper run by the build tool',
     ('rccdep.py', 'run_rcc', 'subprocess.run:noenv'): 'build-time helper run by the build tool',
     # callers of shell.which that rely on the ambient default
-    ('builtins/toolchain.py', 'which', 'which-without-env'):
-        'toolchain which()/compiler()/linker()/runner() search the AMBIENT PATH, also when the toolchain file is replayed by '
-        'regenerate (finding C09-toolchain-which-ambient-path)',
     ('e1m1.py', '_do_play', 'which-without-env'): 'easter egg',
 }
 
